@@ -20,7 +20,9 @@ Clauses(st, e) ==
          <<"call_returns_the_correct_value", (~e.crashed) => e.ok>>,
          <<"call_raises_nothing", (~e.crashed) => e.exc = "">>,
          <<"body_runs_at_most_once_per_call", \A i \in 1..Len(e.bodies) : e.bodies[i][2] <= 1>>,
-         <<"served_from_store_once_a_write_succeeded", e.k \in st.clean => BodiesOf(e, e.k) = 0>> >>
+         <<"served_from_store_once_a_write_succeeded", e.k \in st.clean => BodiesOf(e, e.k) = 0>>,
+         \* whole-store scan after the call: no content key that exists (complete pointer) holds bytes of another hash
+         <<"no_existing_content_key_holds_foreign_bytes", e.poisoned = <<>> >> >>
     [] e.op = "Aux" -> <<>>       \* listings / forgets are part of the history, not judged by C08
     [] OTHER -> << <<"known_event", FALSE>> >>
 
